@@ -72,7 +72,7 @@ def build_target(src, name, libs, includes=(), extra_flags=(), fuzzer=True):
     return out, ""
 
 
-def campaign(exe, seeds, runs, jobs=None, seed=None, max_len=4096, timeout=20, rss_mb=2048,
+def campaign(exe, seeds, runs, jobs=None, seed=None, max_len=4096, timeout=25, rss_mb=2048,
              dict_path=None, extra_args=(), tag="c", wall_timeout=None, env=None):
     """Run `jobs` independent libFuzzer processes of `runs` executions each on a fresh
     corpus seeded from `seeds` (list of files).  A process that finds a crash stops;
@@ -94,32 +94,60 @@ def campaign(exe, seeds, runs, jobs=None, seed=None, max_len=4096, timeout=20, r
         if len(data) <= max_len:
             with open(os.path.join(corpus, "seed%04d" % i), "wb") as f:
                 f.write(data)
-    procs = []
     stats_files = []
-    for j in range(jobs):
+    import threading
+
+    def job(j):
+        """one libFuzzer process; restarted (remaining budget, same corpus) when it
+        stopped on a timeout/oom/slow-unit artifact, which are load noise"""
         sf = os.path.join(base, "stats-%d.json" % j)
         stats_files.append(sf)
         jc = os.path.join(base, "corpus-%d" % j)
-        os.makedirs(jc)
-        cmd = [exe, jc, corpus, "-runs=%d" % runs, "-seed=%d" % (seed * 131 + j + 1),
-               "-max_len=%d" % max_len, "-timeout=%d" % timeout, "-rss_limit_mb=%d" % rss_mb,
-               "-artifact_prefix=%s/" % arts, "-print_final_stats=1", "-verbosity=0",
-               "-entropic=0", "-reload=0"]
-        if dict_path:
-            cmd.append("-dict=" + dict_path)
-        cmd += list(extra_args)
-        e = asan_env(env)
-        e["VERIF_FUZZ_STATS"] = sf
-        log = open(os.path.join(base, "log-%d.txt" % j), "wb")
-        procs.append((subprocess.Popen(cmd, stdout=log, stderr=subprocess.STDOUT, env=e, cwd=base), log))
+        os.makedirs(jc, exist_ok=True)
+        done = 0
+        for attempt in range(6):
+            remaining = runs - done
+            if remaining <= 0:
+                break
+            cmd = [exe, jc, corpus, "-runs=%d" % remaining, "-seed=%d" % (seed * 131 + j + 1 + 1000 * attempt),
+                   "-max_len=%d" % max_len, "-timeout=%d" % timeout, "-rss_limit_mb=%d" % rss_mb,
+                   "-artifact_prefix=%s/" % arts, "-print_final_stats=1", "-verbosity=0",
+                   "-entropic=0", "-reload=0"]
+            if dict_path:
+                cmd.append("-dict=" + dict_path)
+            cmd += list(extra_args)
+            e = asan_env(env)
+            e["VERIF_FUZZ_STATS"] = sf
+            logp = os.path.join(base, "log-%d-%d.txt" % (j, attempt))
+            with open(logp, "wb") as log:
+                p = subprocess.Popen(cmd, stdout=log, stderr=subprocess.STDOUT, env=e, cwd=base)
+                try:
+                    p.wait(timeout=wall_timeout)
+                except subprocess.TimeoutExpired:
+                    p.kill()
+                    p.wait()
+                    return
+            txt = open(logp, errors="replace").read()
+            n = 0
+            for line in txt.splitlines():
+                if line.startswith("stat::number_of_executed_units:"):
+                    n = int(line.split()[1])
+            done += n
+            if p.returncode == 0:
+                break
+            # stopped on an artifact: only timeout/oom/slow-unit justify a restart
+            if "Test unit written to" in txt and not any(
+                    ("/%s-" % k) in txt for k in ("timeout", "oom", "slow-unit")):
+                break
+            if "/crash-" in txt or "/leak-" in txt:
+                break
+
+    threads = [threading.Thread(target=job, args=(j,)) for j in range(jobs)]
+    for t in threads:
+        t.start()
+    for t in threads:
+        t.join()
     executions = 0
-    for p, log in procs:
-        try:
-            p.wait(timeout=wall_timeout)
-        except subprocess.TimeoutExpired:
-            p.kill()
-            p.wait()
-        log.close()
     logs = sorted(glob.glob(os.path.join(base, "log-*.txt")))
     for l in logs:
         for line in open(l, errors="replace"):
